@@ -270,15 +270,18 @@ impl Family for LargeResponse {
 
 /// responses whose total size passes 2^15 / 2^16 / 2^20 bytes in many packets
 struct Bulky;
+const WCAPS: [usize; 5] = [usize::MAX, 5, 1460, 23_359, 65_536];
 const BULK: [(usize, usize); 6] = [(5, 20_000), (40, 2_000), (300, 300), (2_000, 40), (70, 1_000), (9, 131_072)];
 impl Family for Bulky {
     fn name(&self) -> String {
         "bulky-responses".into()
     }
     fn len(&self) -> u64 {
-        (BULK.len() * 4) as u64
+        (BULK.len() * 4 * WCAPS.len()) as u64
     }
     fn run(&self, idx: u64, st: &mut Stats) -> Result<(), Violation> {
+        let wcap = WCAPS[idx as usize / (BULK.len() * 4)];
+        let idx = idx % (BULK.len() * 4) as u64;
         let (rows, w) = BULK[idx as usize / 4];
         let id = [0u8, 1, 200, 255][idx as usize % 4];
         st.nontrivial += 1;
@@ -295,6 +298,7 @@ impl Family for Bulky {
         let stream = Arc::new(s.bytes);
         let mut sim = sim_for(&stream, vec![]);
         sim.log_ops = false;
+        sim.write_cap = wcap;
         let o = run_conn(sim, ConnCfg::new(Box::new(move |_, cb| match cb {
             Cb::Query(_) => Behavior::Prog(prog.clone()),
             _ => Behavior::Silent,
@@ -307,9 +311,11 @@ impl Family for Bulky {
         Ok(())
     }
     fn describe(&self, idx: u64) -> J {
+        let wcap = WCAPS[idx as usize / (BULK.len() * 4)];
+        let idx = idx % (BULK.len() * 4) as u64;
         let (rows, w) = BULK[idx as usize / 4];
         let id = [0u8, 1, 200, 255][idx as usize % 4];
-        json!({"rows": rows, "cell_bytes": w, "request_sequence_id": id})
+        json!({"rows": rows, "cell_bytes": w, "request_sequence_id": id, "transport_write_accepts_at_most": if wcap == usize::MAX { 0 } else { wcap }})
     }
 }
 
@@ -380,6 +386,105 @@ impl Family for KindHistory {
     }
 }
 
+
+/// deviation-bounded on the write side: the fault-free run of a response is recorded, then
+/// re-run once per transport write with exactly that write accepting fewer bytes than offered
+/// (1 byte, half, all but one). Packets must still arrive whole, in order, consecutively numbered.
+struct OneShortWrite {
+    convs: Vec<(&'static str, usize, usize, usize)>, // label, rows, cell bytes, number of write ops
+}
+impl OneShortWrite {
+    fn prog(rows: usize, w: usize) -> Arc<Vec<WOp>> {
+        let cols = Arc::new(vec![col("c", ColumnType::MYSQL_TYPE_BLOB, ColumnFlags::empty())]);
+        let mut p = vec![WOp::Start(cols)];
+        for r in 0..rows {
+            p.push(WOp::WriteRow(vec![Val::Bytes(vec![b'a' + (r % 26) as u8; w])]));
+        }
+        p.push(WOp::Finish);
+        Arc::new(p)
+    }
+    fn run_one(rows: usize, w: usize, fault: Option<crate::sim::Fault>) -> (Outcome, Conv, Vec<u8>) {
+        let prog = Self::prog(rows, w);
+        let conv = Conv::new(vec![q(b"bulk").seq(7), ping().seq(200)]);
+        let s = conv.stream();
+        let stream = Arc::new(s.bytes);
+        let mut sim = sim_for(&stream, vec![]);
+        sim.fault = fault;
+        let o = run_conn(sim, ConnCfg::new(Box::new(move |_, cb| match cb {
+            Cb::Query(_) => Behavior::Prog(prog.clone()),
+            _ => Behavior::Silent,
+        })));
+        (o, conv, s.last_seq)
+    }
+    fn new() -> Self {
+        let mut convs = Vec::new();
+        for (label, rows, w) in [("300 rows of 20 bytes", 300usize, 20usize), ("40 rows of 2000 bytes", 40, 2000), ("9 rows of 131072 bytes", 9, 131_072), ("3 rows of 30000 bytes", 3, 30_000)] {
+            let (o, _, _) = Self::run_one(rows, w, None);
+            let n = o.sim.ops.iter().filter(|x| x.kind == crate::sim::OpKind::Write).count();
+            convs.push((label, rows, w, n));
+        }
+        OneShortWrite { convs }
+    }
+    fn locate(&self, idx: u64) -> (usize, usize, usize) {
+        let mut i = idx;
+        for (ci, c) in self.convs.iter().enumerate() {
+            let n = (c.3 * 3) as u64;
+            if i < n {
+                return (ci, (i / 3) as usize, (i % 3) as usize);
+            }
+            i -= n;
+        }
+        unreachable!()
+    }
+}
+impl Family for OneShortWrite {
+    fn name(&self) -> String {
+        "one-short-write".into()
+    }
+    fn len(&self) -> u64 {
+        self.convs.iter().map(|c| (c.3 * 3) as u64).sum()
+    }
+    fn run(&self, idx: u64, st: &mut Stats) -> Result<(), Violation> {
+        let (ci, k, how) = self.locate(idx);
+        let (label, rows, w, _) = self.convs[ci];
+        st.nontrivial += 1;
+        st.bump("one_short_write_runs");
+        // find the absolute op index of the k-th write in the fault-free run
+        let (base, _, _) = Self::run_one(rows, w, None);
+        let (at, req) = base.sim.ops.iter().enumerate().filter(|(_, o)| o.kind == crate::sim::OpKind::Write).map(|(i, o)| (i, o.req)).nth(k).unwrap();
+        let n = match how {
+            0 => 1,
+            1 => (req / 2).max(1),
+            _ => req.saturating_sub(1).max(1),
+        };
+        let (o, conv, last_seq) = Self::run_one(rows, w, Some(crate::sim::Fault { at_op: at, kind: crate::sim::FaultKind::ShortWrite(n), persistent: false }));
+        let what = format!("{}: transport write #{} (of {} bytes) accepts {} bytes", label, k, req, n);
+        if let ConnResult::Panic(l, m) = &o.res {
+            return Err(Violation::new(panic_key(l, m), format!("{}: run_on panicked at {}: {}", what, l, m)));
+        }
+        if !o.res.is_ok() {
+            return Err(Violation::new("result-not-ok", format!("{}: run_on returned {}", what, o.res.short())));
+        }
+        if o.sim.out != base.sim.out {
+            // same bytes in the same order is what a short write must lead to
+            let d = decode_all(&o.sim.out, &conv, &last_seq, 2, false).map_err(|e| {
+                let mut v = seq_violation(e);
+                v.msg = format!("{}: {}", what, v.msg);
+                v
+            })?;
+            let _ = d;
+            return Err(Violation::new("short-write-changes-output", format!("{}: the bytes sent differ from the undisturbed run ({} vs {} bytes)", what, o.sim.out.len(), base.sim.out.len())));
+        }
+        st.transitions += 1;
+        Ok(())
+    }
+    fn describe(&self, idx: u64) -> J {
+        let (ci, k, how) = self.locate(idx);
+        let acc = ["1 byte", "half", "all but one byte"][how];
+        json!({"response": self.convs[ci].0, "short_write_at_transport_write": k, "accepts": acc})
+    }
+}
+
 pub fn build(quick: bool) -> Check {
     let all_ids: Vec<u8> = (0..=255u8).collect();
     let all_lens: Vec<usize> = std::iter::once(1).chain(4..=520).collect();
@@ -412,6 +517,7 @@ pub fn build(quick: bool) -> Check {
         nfrag: if quick { vec![2, 3] } else { vec![2, 3, 4] },
     }));
     families.push(Box::new(Bulky));
+    families.push(Box::new(OneShortWrite::new()));
     families.push(Box::new(LargeResponse {
         ids: if quick { vec![0, 253] } else { vec![0, 1, 251, 252, 253, 254, 255] },
         sizes: if quick { vec![2 * MAXP + 10] } else { vec![MAXP + 10, 2 * MAXP + 10, 3 * MAXP + 10] },
@@ -419,12 +525,12 @@ pub fn build(quick: bool) -> Check {
     Check {
         id: "C05",
         level: "model_checking",
-        rule: "every command kind after every kind of previous exchange x request ids {0,1,42,127,254,255}; request sequence id x response length (1 and 4..520 packets, text and binary), each followed by a second command with an unrelated id; handshake responses with every id; 2-, 3- (thorough: 4-) fragment requests starting at ids around the wrap, with reads ending at every subset of the fragment boundaries; responses whose single row spans 2..4 maximal packets; responses of 40 KiB..1 MiB in 5..2000 packets. Oracle: packet i of a reply carries (last request id + 1 + i) mod 256. Non-trivial = request id != 0 (the only id the test clients use).".into(),
+        rule: "every command kind after every kind of previous exchange x request ids {0,1,42,127,254,255}; request sequence id x response length (1 and 4..520 packets, text and binary), each followed by a second command with an unrelated id; handshake responses with every id; 2-, 3- (thorough: 4-) fragment requests starting at ids around the wrap, with reads ending at every subset of the fragment boundaries; responses whose single row spans 2..4 maximal packets; responses of 40 KiB..1 MiB in 5..2000 packets under transport writes of at most 5 / 1460 / 23359 / 65536 bytes; four responses re-run with exactly one transport write accepting 1 byte / half / all but one byte, for every write of the undisturbed run. Oracle: packet i of a reply carries (last request id + 1 + i) mod 256. Non-trivial = request id != 0 (the only id the test clients use).".into(),
         assumptions: vec!["sequence ids of server packets are read by the independent framer (refwire)".into()],
         bounds: json!({"max_response_packets": 520, "fragments": if quick {2} else {3}}),
         exhaustive: true,
         caps_hit: vec![],
         families,
-        required: vec!["requests_of_three_or_more_packets", "kind_history_cases", "request_id_255", "replies_wrapping_past_255", "fragmented_requests", "large_response_messages", "bulky_responses"],
+        required: vec!["one_short_write_runs", "requests_of_three_or_more_packets", "kind_history_cases", "request_id_255", "replies_wrapping_past_255", "fragmented_requests", "large_response_messages", "bulky_responses"],
     }
 }
